@@ -1,3 +1,59 @@
-import PGM.Model.GM
+import PGM.Proofs.BPCorrect
+/-!
+# C01 — exact inference returns the true marginals of the product distribution
+
+Theorems about `PGM/Model/GM.lean` (`bpLoop`, `logZ`, `beliefPropagation`: the transcription of
+`graphical_model.py:148-176` over the factor model), instantiated at `LogOf K` for any linearly
+ordered field `K` (the exp-space image of the log-space code).  `ModelOK` bundles the hypotheses:
+a junction tree accepted by the verified `checkJT` (C12) with any schedule it accepts, one
+nonnegative potential table per node over that node's attributes in any order.
+-/
 namespace PGM.C01
+open PGM PGM.JT PGM.GM PGM.Sem
+variable {K : Type} [Field K] [LinearOrder K] [IsStrictOrderedRing K]
+
+/-- the log-partition value computed from the first clique's belief is the partition function -/
+theorem logZ_correct (d : Dom) (cliques : List Clique) (t : Tree) (order : List (Clique × Clique))
+    (pots : CliqueVec (LogOf K)) (hok : ModelOK d cliques t order pots) :
+    (logZ cliques order pots).v = partition d pots :=
+  Sem.logZ_correct d cliques t order pots hok
+
+/-- **exact inference is exact**: for every junction tree, every accepted message schedule, every
+nonnegative potential (zeros = `-∞` included) and every total, each returned clique table is
+`total · marginal / Z` of the product of the potentials -/
+theorem bp_marginals (d : Dom) (cliques : List Clique) (t : Tree) (order : List (Clique × Clique))
+    (pots : CliqueVec (LogOf K)) (hok : ModelOK d cliques t order pots) (total : LogOf K)
+    (hZ : partition d pots ≠ 0) (c : Clique) (hc : c ∈ cliques) (σ : Attr → Nat) (hσ : d.Valid σ) :
+    ((beliefPropagation cliques order pots total).get c).dom.attrs = (pots.get c).dom.attrs ∧
+    (((beliefPropagation cliques order pots total).get c).sem σ).v
+      = total.v * marginal d pots c σ / partition d pots :=
+  Sem.bp_marginals d cliques t order pots hok total hZ c hc σ hσ
+
+/-- **schedule independence**: any two dependency-respecting message orders give the same tables -/
+theorem bp_schedule_indep (d : Dom) (cliques : List Clique) (t : Tree)
+    (order order' : List (Clique × Clique)) (pots : CliqueVec (LogOf K))
+    (hok : ModelOK d cliques t order pots) (hok' : ModelOK d cliques t order' pots) (total : LogOf K)
+    (hZ : partition d pots ≠ 0) (c : Clique) (hc : c ∈ cliques) (σ : Attr → Nat) (hσ : d.Valid σ) :
+    (((beliefPropagation cliques order pots total).get c).sem σ).v
+      = (((beliefPropagation cliques order' pots total).get c).sem σ).v := by
+  rw [(bp_marginals d cliques t order pots hok total hZ c hc σ hσ).2,
+      (bp_marginals d cliques t order' pots hok' total hZ c hc σ hσ).2]
+
+/-- **independence of the junction tree** (hence of the elimination order that produced it): two
+valid trees over possibly different node sets answer identically on any clique they share -/
+theorem bp_tree_indep (d : Dom) (cliques cliques' : List Clique) (t t' : Tree)
+    (order order' : List (Clique × Clique)) (pots pots' : CliqueVec (LogOf K))
+    (hok : ModelOK d cliques t order pots) (hok' : ModelOK d cliques' t' order' pots') (total : LogOf K)
+    (hjoint : ∀ τ, joint pots τ = joint pots' τ)
+    (hZ : partition d pots ≠ 0) (c : Clique) (hc : c ∈ cliques) (hc' : c ∈ cliques')
+    (σ : Attr → Nat) (hσ : d.Valid σ) :
+    (((beliefPropagation cliques order pots total).get c).sem σ).v
+      = (((beliefPropagation cliques' order' pots' total).get c).sem σ).v := by
+  have hpart : partition d pots = partition d pots' := by
+    unfold partition sumOver; simp only [hjoint]
+  have hmarg : marginal d pots c σ = marginal d pots' c σ := by
+    unfold marginal sumOver; simp only [hjoint]
+  rw [(bp_marginals d cliques t order pots hok total hZ c hc σ hσ).2,
+      (bp_marginals d cliques' t' order' pots' hok' total (hpart ▸ hZ) c hc' σ hσ).2, hpart, hmarg]
+
 end PGM.C01
